@@ -19,7 +19,7 @@ F = TensorProto.FLOAT
 PERMS3 = [list(p) for p in itertools.permutations(range(3))]
 PERMS4 = [[0, 3, 1, 2], [0, 2, 3, 1], [0, 1, 3, 2], [0, 2, 1, 3], [1, 0, 2, 3], [3, 2, 1, 0]]
 UNARY = ["Relu", "Sigmoid", "Tanh", "Elu", "LeakyRelu", "Identity", "Neg", "Abs", "Exp", "CastF", "Gelu"]
-BINARY = ["Add", "Mul", "Sub", "Div", "Max", "Min"]
+BINARY = ["Add", "Mul", "Sub", "Div", "Max", "Min", "CastLike"]
 NON_MEMBERS = ["SoftmaxAxis1", "ReduceSumKeep", "CumSum0"]
 SIDE_KINDS = ["scalar", "vector_last", "full_const", "second_input", "ones_shape"]
 
@@ -337,6 +337,8 @@ def t_mul_sigmoid(r: dict[str, Any]) -> onnx.ModelProto:
         b.outputs.append(s)
     if r.get("sigmoid_second_consumer"):
         b.outputs.append(b.node("Neg", [s]))
+    if r.get("sigmoid_captured_by_if"):  # the only other reader of the Sigmoid lives in a nested graph
+        b.outputs.append(_capture_in_if(b, s))
     return b.model()
 
 
@@ -353,6 +355,10 @@ def t_mul_rsqrt(r: dict[str, Any]) -> onnx.ModelProto:
         b.outputs.append(rec)
     if r.get("rsqrt_second_consumer"):
         b.outputs.append(b.node("Neg", [rec]))
+    if r.get("rsqrt_captured_by_if"):
+        b.outputs.append(_capture_in_if(b, rec))
+    elif r.get("sqrt_captured_by_if"):
+        b.outputs.append(_capture_in_if(b, sq))
     return b.model()
 
 
@@ -689,9 +695,9 @@ def sample(template: str, rng: np.random.Generator) -> dict[str, Any]:
             r["T2"] = str(rng.choice(kinds))
         return r
     if template == "mul_sigmoid":
-        return {"t": template, "opset": opset, "seed": seed, "shape": [2, 3], "pre": bool(rng.random() < 0.5), "same": bool(rng.random() < 0.75), "order": int(rng.integers(2)), "sigmoid_is_output": bool(rng.random() < 0.3), "sigmoid_second_consumer": bool(rng.random() < 0.3)}
+        return {"t": template, "opset": opset, "seed": seed, "shape": [2, 3], "pre": bool(rng.random() < 0.5), "same": bool(rng.random() < 0.75), "order": int(rng.integers(2)), "sigmoid_is_output": bool(rng.random() < 0.3), "sigmoid_second_consumer": bool(rng.random() < 0.3), "sigmoid_captured_by_if": bool(rng.random() < 0.3)}
     if template == "mul_rsqrt":
-        return {"t": template, "opset": opset, "seed": seed, "shape": [2, 3], "form": str(rng.choice(["reciprocal", "div"])), "order": int(rng.integers(2)), "rsqrt_is_output": bool(rng.random() < 0.3), "rsqrt_second_consumer": bool(rng.random() < 0.3)}
+        return {"t": template, "opset": opset, "seed": seed, "shape": [2, 3], "form": str(rng.choice(["reciprocal", "div"])), "order": int(rng.integers(2)), "rsqrt_is_output": bool(rng.random() < 0.3), "rsqrt_second_consumer": bool(rng.random() < 0.3), "rsqrt_captured_by_if": bool(rng.random() < 0.25), "sqrt_captured_by_if": bool(rng.random() < 0.25)}
     if template == "dropout_not":
         return {"t": template, "opset": opset, "seed": seed, "shape": [2, 3], "deterministic": True, "via_not": bool(rng.random() < 0.8), "ratio": float(rng.choice([0.0, 0.5, 0.9])), "mask_out": bool(rng.random() < 0.4), "not_is_output": bool(rng.random() < 0.3)}
     if template == "range_cast":
@@ -718,7 +724,7 @@ def sample(template: str, rng: np.random.Generator) -> dict[str, Any]:
 
 WEIGHTS = {
     "transpose_chain": 30, "transpose_reduce": 12, "add_forest": 10, "reshape_pair": 14, "reshape_two_inputs": 2, "identity_reshape": 6,
-    "cast_pair": 10, "mul_sigmoid": 3, "mul_rsqrt": 3, "dropout_not": 3, "range_cast": 5, "dead_and_prune": 2, "in_if": 4, "in_function": 4,
+    "cast_pair": 10, "mul_sigmoid": 5, "mul_rsqrt": 5, "dropout_not": 3, "range_cast": 5, "dead_and_prune": 2, "in_if": 4, "in_function": 4,
 }
 
 
